@@ -131,7 +131,7 @@ pub fn spell_line(ln: &Value, rng: &mut Rng) -> String {
     let ty = geti(ln, "ty");
     f.push(match gets(ln, "tyc") {
         "num" => {
-            if rng.chance(1, 6) {
+            if ty >= 0 && rng.chance(1, 6) {
                 format!("+{ty}")
             } else {
                 format!("{ty}")
